@@ -39,7 +39,8 @@ def _run(rec):
             concretize_type(subd, subj.reg)
         if wire != ["skip"]:
             try:
-                w = abstract_value(subj.encode_py(concretize_value(value, subj.reg)), subj.reg)
+                kw = {"by_alias": True} if pos == "aliasflag" else {}
+                w = abstract_value(subj.encode_py(concretize_value(value, subj.reg), **kw), subj.reg)
                 if not wire_match(canon(wire), w):
                     out["mism"].append({**base, "clause": "wire", "input": value, "expected": wire, "actual": w})
             except BaseException as e:  # noqa: BLE001
@@ -61,7 +62,7 @@ def run(prop, tier, seed):
     rep = Report("C16", tier, seed)
     wd = tlc.scratch()
     cfg = core.cfg_text("MC_C16.cfg", MaxLen=2 if tier == "quick" else 3)
-    r = tlc.run_tlc("MC_C16", workdir=wd, workers=16, timeout=3000, cfg_text=cfg)
+    r = core.run_mc_with_table("MC_C16", wd, [(["date"], [["str", "2024-01-02"]])], cfg=cfg, timeout=3000)
     rep.add_tlc(r, "MC_C16: ReprSafe, RawSafeWhenPlain, RawSpliceRefuted over all strings of length <= 4; ExactlyTheString; one class per (position, string)")
     if r.violated:
         raise tlc.MachineryError(f"model property violated on the reference spec: {r.violated}")
